@@ -188,6 +188,36 @@ def run_c08(tier, seed):
         for hs in c["hist"]:
             for (_, kind, exact) in hs:
                 kinds["auth_exact" if kind == "auth" and exact else "auth_wrong" if kind == "auth" else "other"] += 1
+    # requests that are not command arrays - a bare simple string / bulk string / integer / error line, an inline line, an array
+    # whose first element is not a bulk string - on an unauthenticated connection, before and after a refused AUTH: nothing of
+    # that is a way around the gate (no handler call, no reply other than an error); then the exact AUTH still opens it
+    raw = []
+    forms = [b"+PING\r\n", b"+ping\r\n", b"$4\r\nPING\r\n", b"$4\r\nping\r\n", b":1\r\n", b"-ERR x\r\n", b"PING\r\n", b"*1\r\n+PING\r\n", b"*1\r\n*1\r\n$4\r\nPING\r\n",
+             b"*2\r\n+GET\r\n$1\r\nk\r\n", b"+GET k\r\n", b"$7\r\nCOMMAND\r\n", b"+AUTH\r\n", b"+QUIT\r\n", b"$4\r\nECHO\r\n", b"*1\r\n:1\r\n"]
+    for fr in forms:
+        for pre in (b"", G.request_bytes("AUTH", [b"wrong"])):
+            steps = ([(0, "f" + L.hx(pre))] if pre else []) + [(0, "f" + L.hx(fr)), (0, "f" + L.hx(G.request_bytes("GET", [b"k"]))), (0, "f" + L.hx(G.request_bytes("AUTH", [b"secret"]))),
+                                                              (0, "f" + L.hx(G.request_bytes("GET", [b"k"]))), (0, "e")]
+            raw.append(dict(line=L.mkcase(steps, pw=b"secret", conns=1, app=[b"myapp"], default="mb(76)"), fr=fr, pre=bool(pre),
+                            desc="pw=b'secret' c0: %s%r ; GET k ; AUTH secret ; GET k" % ("AUTH wrong ; " if pre else "", fr)))
+    for c in run_cases(chk, raw):
+        res, evs = c["iobs"].conns[0]
+        calls = [x[4] for x in L.calls_of(evs)]
+        ws = [w[1] for w in L.writes_of(evs)]
+        # before the exact AUTH: no handler call at all; every reply written before the +OK of AUTH is an error line
+        ok_at = next((i for i, w in enumerate(ws) if w == b"+OK\r\n"), None)
+        early = ws[:ok_at] if ok_at is not None else ws
+        bad = None
+        if any(not w.startswith(b"-") for w in early):
+            bad = "a reply other than an error was written before any AUTH with the exact password: %r" % [w for w in early if not w.startswith(b"-")][0][:60]
+        elif ok_at is not None and len(calls) != 1:
+            bad = "handler calls %s (expected exactly the GET after the exact AUTH)" % calls
+        elif ok_at is None and calls:
+            bad = "handler calls %s although no AUTH succeeded" % calls
+        if bad:
+            chk.violation("gate-non-array-request", "%s :: %s" % (bad, c["desc"]), dict(case=c["line"], desc=c["desc"], impl=c["iobs"].raw[:3000]))
+        elif corr(chk, c):
+            validated += 1
     if broken and not chk.violations:
         chk.violation("proof-broken", broken, dict(broken=broken, theorem="GRP.C08"), True)
     chk.coverage.update(
